@@ -1190,9 +1190,15 @@ impl StoryState {
 
         // Each flow has its own evaluation stack: park the one of the flow we leave
         next_flow.evaluation_stack = std::mem::take(&mut self.evaluation_stack);
-        self.evaluation_stack = std::mem::take(&mut self.current_flow.evaluation_stack);
+        let parked = std::mem::take(&mut self.current_flow.evaluation_stack);
 
         named_flows.insert(next_flow.name.clone(), next_flow);
+
+        // Pushed one by one: a list that was read from a saved game while its flow was parked
+        // has to find its origin definitions, like the values of the top-level "evalStack".
+        for obj in parked {
+            self.push_evaluation_stack(obj);
+        }
 
         self.variables_state
             .set_callstack(self.current_flow.callstack.clone());
